@@ -10,6 +10,8 @@ import (
 	"net/http/httptest"
 	"os"
 	"os/exec"
+	"sync"
+	"syscall"
 	"path/filepath"
 	"strings"
 	"testing"
@@ -36,12 +38,20 @@ type BinStep struct {
 	// middle of that update); -2: SIGKILL right after the new checkpoint was observed
 	// through the HTTP API (acknowledged).
 	Kill int `json:"kill"`
+	// ExtKB > 0: from this step on the (tiles-type) log's checkpoint carries that many KiB
+	// of extension lines (a legal, large checkpoint)
+	ExtKB int `json:"ext_kb,omitempty"`
 }
 
 // BinCase is one life of the program.
 type BinCase struct {
-	NTiles int       `json:"ntiles"`
-	Steps  []BinStep `json:"steps"`
+	NTiles int `json:"ntiles"`
+	// SlowSyncMs > 0: the program runs under strace with every fsync/fdatasync delayed by
+	// that many milliseconds and every pwrite64 (SQLite's page writes) by 1.5ms, which
+	// stretches the commit of each update so that kills and reads land inside it
+	// (skipped, and counted, where strace cannot trace)
+	SlowSyncMs int       `json:"slow_sync_ms,omitempty"`
+	Steps      []BinStep `json:"steps"`
 }
 
 type binProc struct {
@@ -74,7 +84,34 @@ func stubPubText(l *stubLog, size uint64) string {
 	if l.kind == "sumdb" {
 		return string(tlog.FormatTree(tlog.Tree{N: int64(size), Hash: tlog.Hash(root)}))
 	}
-	return vlib.CheckpointText(l.origin, size, root[:], nil)
+	return vlib.CheckpointText(l.origin, size, root[:], l.ext)
+}
+
+func extLines(kb int, tag int) []string {
+	var out []string
+	line := strings.Repeat(fmt.Sprintf("extension-%d-", tag), 8)
+	for n := 0; n < kb*1024; n += len(line) + 1 {
+		out = append(out, line)
+	}
+	return out
+}
+
+var (
+	straceOnce sync.Once
+	straceOK   bool
+)
+
+// canStrace: strace is installed and allowed to delay a child's fsync here.
+func canStrace() bool {
+	straceOnce.Do(func() {
+		path, err := exec.LookPath("strace")
+		if err != nil {
+			return
+		}
+		out, err := exec.Command(path, "-f", "-o", "/dev/null", "-e", "trace=fsync,fdatasync,pwrite64", "-e", "inject=fsync,fdatasync:delay_enter=1000", "-e", "inject=pwrite64:delay_enter=1000", "true").CombinedOutput()
+		straceOK = err == nil && len(out) == 0
+	})
+	return straceOK
 }
 
 // servedText checks that raw is a complete note carrying the log's signature and both
@@ -82,7 +119,7 @@ func stubPubText(l *stubLog, size uint64) string {
 func servedText(l *stubLog, wk *vlib.Key, raw []byte) (string, error) {
 	text, sigs, ok := vlib.SplitNote(raw)
 	if !ok {
-		return "", fmt.Errorf("served bytes are not a note: %q", raw)
+		return "", fmt.Errorf("served bytes (%d) are not a note: %.300q", len(raw), raw)
 	}
 	logOK, legacyOK, cosigOK := false, false, false
 	for _, sg := range sigs {
@@ -97,7 +134,7 @@ func servedText(l *stubLog, wk *vlib.Key, raw []byte) (string, error) {
 		}
 	}
 	if !logOK || !legacyOK || !cosigOK {
-		return text, fmt.Errorf("served checkpoint %q lacks a valid signature (log %v, witness legacy %v, witness cosignature %v)", text, logOK, legacyOK, cosigOK)
+		return text, fmt.Errorf("served checkpoint (%d bytes) %.300q lacks a valid signature (log %v, witness legacy %v, witness cosignature %v)", len(raw), text, logOK, legacyOK, cosigOK)
 	}
 	return text, nil
 }
@@ -133,6 +170,7 @@ func runBin(c *BinCase) (bool, []string, error) {
 		return false, nil, fmt.Errorf("harness: %v", err)
 	}
 	wk := vlib.NewKey("witness.example/w", "wit")
+	slow := c.SlowSyncMs > 0 && canStrace()
 	nstart := 0
 	start := func() (*binProc, error) {
 		var lastErr error
@@ -147,8 +185,15 @@ func runBin(c *BinCase) (bool, []string, error) {
 			if err != nil {
 				return nil, err
 			}
-			cmd := exec.Command(bin, "-listen", addr, "-metrics_listen", "", "-db_file", filepath.Join(dir, "witness.db"),
-				"-private_key", wk.SKey(), "-poll_interval", "100ms", "-http_timeout", "5s")
+			args := []string{"-listen", addr, "-metrics_listen", "", "-db_file", filepath.Join(dir, "witness.db"),
+				"-private_key", wk.SKey(), "-poll_interval", "100ms", "-http_timeout", "5s"}
+			cmd := exec.Command(bin, args...)
+			if slow {
+				// fsync delayed by SlowSyncMs, every page write (SQLite uses pwrite64) by 1.5ms
+				cmd = exec.Command("strace", append([]string{"-f", "-o", "/dev/null", "-e", "trace=fsync,fdatasync,pwrite64", "-e",
+					fmt.Sprintf("inject=fsync,fdatasync:delay_enter=%d", c.SlowSyncMs*1000), "-e", "inject=pwrite64:delay_enter=1500", bin}, args...)...)
+			}
+			cmd.SysProcAttr = &syscall.SysProcAttr{Setpgid: true} // the kill takes the whole group (strace and the program) at once
 			cmd.Env = append(os.Environ(), "VERIF_CONFIG_LOGS="+cfgPath)
 			cmd.Stdout, cmd.Stderr = lf, lf
 			if err := cmd.Start(); err != nil {
@@ -178,7 +223,7 @@ func runBin(c *BinCase) (bool, []string, error) {
 			if up {
 				return p, nil
 			}
-			_ = cmd.Process.Kill()
+			_ = syscall.Kill(-cmd.Process.Pid, syscall.SIGKILL)
 			<-exited
 			lastErr = fmt.Errorf("the program did not serve on %s within 30s; its output ends:\n%s", addr, tailOf(logPath))
 			if !strings.Contains(tailOf(logPath), "failed to listen") {
@@ -188,7 +233,7 @@ func runBin(c *BinCase) (bool, []string, error) {
 		return nil, lastErr
 	}
 	kill := func(p *binProc) {
-		_ = p.cmd.Process.Kill() // SIGKILL
+		_ = syscall.Kill(-p.cmd.Process.Pid, syscall.SIGKILL)
 		select {
 		case <-p.exited:
 		case <-time.After(10 * time.Second):
@@ -205,7 +250,7 @@ func runBin(c *BinCase) (bool, []string, error) {
 		return resp.StatusCode, b, nil
 	}
 	// waitServed polls until log li serves text want (fully signed).
-	waitServed := func(p *binProc, li int, want string, what string) error {
+	waitServed := func(p *binProc, li int, want string, what string, every time.Duration) error {
 		deadline := time.Now().Add(60 * time.Second)
 		last := ""
 		for {
@@ -218,14 +263,14 @@ func runBin(c *BinCase) (bool, []string, error) {
 				if text == want {
 					return nil
 				}
-				last = fmt.Sprintf("serves %q", text)
+				last = fmt.Sprintf("serves %.300q", text)
 			} else {
 				last = fmt.Sprintf("status %d err %v", code, err)
 			}
 			if time.Now().After(deadline) {
-				return fmt.Errorf("%s: 60s (600 poll intervals) after the log published %q the program %s; its output ends:\n%s", what, want, last, tailOf(p.log))
+				return fmt.Errorf("%s: 60s (600 poll intervals) after the log published %.300q the program %s; its output ends:\n%s", what, want, last, tailOf(p.log))
 			}
-			time.Sleep(15 * time.Millisecond)
+			time.Sleep(every)
 		}
 	}
 
@@ -247,6 +292,9 @@ func runBin(c *BinCase) (bool, []string, error) {
 		l := stubs.logs[st.Log]
 		l.size += st.Grow
 		newSize := l.size
+		if st.ExtKB > 0 && l.kind == "tiles" {
+			l.ext = extLines(st.ExtKB, si)
+		}
 		stubs.mu.Unlock()
 		pub := stubPubText(l, newSize)
 		if st.Kill >= 0 {
@@ -282,7 +330,7 @@ func runBin(c *BinCase) (bool, []string, error) {
 				old, had := acked[li]
 				if code == 404 {
 					if had {
-						return true, classes, fmt.Errorf("%s: log %d served %q before the kill (acknowledged) and has NO checkpoint after restart", what, li, old)
+						return true, classes, fmt.Errorf("%s: log %d served %.300q before the kill (acknowledged) and has NO checkpoint after restart", what, li, old)
 					}
 					continue
 				}
@@ -310,7 +358,7 @@ func runBin(c *BinCase) (bool, []string, error) {
 					}
 				}
 				if !okText {
-					return true, classes, fmt.Errorf("%s: log %d serves %q after restart, which is neither the checkpoint held before the interrupted update nor the one being written %q", what, li, text, allowed)
+					return true, classes, fmt.Errorf("%s: log %d serves %.300q after restart, which is neither the checkpoint held before the interrupted update nor the one being written", what, li, text)
 				}
 				if li == st.Log {
 					if had && text == old && old != pub {
@@ -324,7 +372,11 @@ func runBin(c *BinCase) (bool, []string, error) {
 		stubs.mu.Lock()
 		stubs.down = false
 		stubs.mu.Unlock()
-		if err := waitServed(p, st.Log, pub, what); err != nil {
+		every := 15 * time.Millisecond
+		if st.Kill == -2 {
+			every = 200 * time.Microsecond // see it as early as a client possibly can, then kill at once
+		}
+		if err := waitServed(p, st.Log, pub, what, every); err != nil {
 			return true, classes, err
 		}
 		acked[st.Log] = pub
@@ -338,14 +390,14 @@ func runBin(c *BinCase) (bool, []string, error) {
 			for li, want := range acked {
 				code, b, gerr := get(p, li)
 				if gerr != nil || code != 200 {
-					return true, classes, fmt.Errorf("%s: log %d was acknowledged at %q; after kill and restart GET gives status %d err %v", what, li, want, code, gerr)
+					return true, classes, fmt.Errorf("%s: log %d was acknowledged at %.300q; after kill and restart GET gives status %d err %v", what, li, want, code, gerr)
 				}
 				text, verr := servedText(stubs.logs[li], wk, b)
 				if verr != nil {
 					return true, classes, fmt.Errorf("%s: log %d after restart: %v", what, li, verr)
 				}
 				if text != want {
-					return true, classes, fmt.Errorf("%s: log %d was acknowledged at %q; after kill and restart it serves %q", what, li, want, text)
+					return true, classes, fmt.Errorf("%s: log %d was acknowledged at %.300q; after kill and restart it serves %.300q", what, li, want, text)
 				}
 			}
 			classes = append(classes, "killed-after-ack")
@@ -353,6 +405,13 @@ func runBin(c *BinCase) (bool, []string, error) {
 	}
 	kill(p)
 	p = nil
+	if c.SlowSyncMs > 0 {
+		if slow {
+			classes = append(classes, "fsync-delayed")
+		} else {
+			classes = append(classes, "fsync-delay-unavailable")
+		}
+	}
 	return kills > 0, classes, nil
 }
 
@@ -362,9 +421,12 @@ func binHash(c *BinCase) string {
 }
 
 func TestC06Binary(t *testing.T) {
-	st := vlib.StatsFor("C06", "binary", "the real cmd/omniwitness program (built from the tree, log configuration from a generated file) on a SQLite file, polling stub sumdb/tiles logs every 100ms; 3-8 growth steps, each optionally with SIGKILL 0-30ms after the program's feeder fetched the newly published checkpoint (i.e. in the middle of that update) or right after the new checkpoint was acknowledged through the HTTP API, then a restart on the same file: every log must serve a complete, fully signed checkpoint that is the one held before or the one being written, nothing acknowledged may be lost, and the program must come back and catch up; non-trivial = at least one kill; distinct by case hash")
+	st := vlib.StatsFor("C06", "binary", "the real cmd/omniwitness program (built from the tree, log configuration from a generated file) on a SQLite file, polling stub sumdb/tiles logs every 100ms, in half of the cases under strace with every fsync delayed by 10-40ms and every page write by 1.5ms (a stretched commit), checkpoints of up to 200 KiB (extension lines); 3-8 growth steps, each optionally with SIGKILL 0-80ms after the program's feeder fetched the newly published checkpoint (i.e. in the middle of that update) or right after the new checkpoint was acknowledged through the HTTP API, then a restart on the same file: every log must serve a complete, fully signed checkpoint that is the one held before or the one being written, nothing acknowledged may be lost, and the program must come back and catch up; non-trivial = at least one kill; distinct by case hash")
 	rapid.Check(t, func(rt *rapid.T) {
 		c := &BinCase{NTiles: rapid.IntRange(1, 2).Draw(rt, "ntiles")}
+		if rapid.Bool().Draw(rt, "slowsync") {
+			c.SlowSyncMs = rapid.SampledFrom([]int{10, 25, 40}).Draw(rt, "syncms")
+		}
 		n := rapid.IntRange(3, 8).Draw(rt, "nsteps")
 		for i := 0; i < n; i++ {
 			s := BinStep{Log: rapid.IntRange(0, c.NTiles).Draw(rt, "log"), Kill: -1}
@@ -373,12 +435,15 @@ func TestC06Binary(t *testing.T) {
 			} else {
 				s.Grow = uint64(rapid.IntRange(1, 700).Draw(rt, "growbig"))
 			}
+			if s.Log > 0 && vlib.Pct(rt, 30, "bigcp") {
+				s.ExtKB = rapid.SampledFrom([]int{20, 48, 64, 100, 200}).Draw(rt, "extkb")
+			}
 			switch vlib.Uniform(rt, 4, "killkind") {
 			case 0:
 			case 1:
 				s.Kill = -2
 			default:
-				s.Kill = rapid.SampledFrom([]int{0, 1, 2, 3, 5, 8, 12, 20, 30, 50, 100, 300}).Draw(rt, "killdelay") + rapid.IntRange(0, 3).Draw(rt, "killjit")
+				s.Kill = rapid.SampledFrom([]int{0, 1, 2, 3, 5, 8, 12, 20, 30, 50, 100, 200, 300, 500, 800}).Draw(rt, "killdelay") + rapid.IntRange(0, 3).Draw(rt, "killjit")
 			}
 			c.Steps = append(c.Steps, s)
 		}
@@ -391,7 +456,38 @@ func TestC06Binary(t *testing.T) {
 	})
 }
 
+// TestC06BinaryFixed: schedules every run contains: large checkpoints (100 KiB) written
+// under a stretched commit with kills spread over the whole write, and kills right after
+// the first sight of a new checkpoint.
+func TestC06BinaryFixed(t *testing.T) {
+	st := vlib.StatsFor("C06", "binary-fixed", "fixed schedules for the real program: (a) 100 KiB checkpoints, commit stretched (fsync +25ms, page writes +1.5ms), SIGKILL 10/20/30/40/60/80ms into six successive updates; (b) six updates each killed the moment the new checkpoint is first visible through the HTTP API, commit stretched; same oracle as part binary; non-trivial = any")
+	big := &BinCase{NTiles: 1, SlowSyncMs: 25, Steps: []BinStep{{Log: 1, Grow: 5, Kill: -1, ExtKB: 100}}}
+	for _, k := range []int{100, 200, 300, 400, 600, 800} {
+		big.Steps = append(big.Steps, BinStep{Log: 1, Grow: 3, Kill: k, ExtKB: 100})
+	}
+	seen := &BinCase{NTiles: 1, SlowSyncMs: 25, Steps: []BinStep{{Log: 1, Grow: 5, Kill: -1}, {Log: 0, Grow: 4, Kill: -1}}}
+	for i := 0; i < 6; i++ {
+		seen.Steps = append(seen.Steps, BinStep{Log: i % 2, Grow: uint64(1 + i), Kill: -2})
+	}
+	for _, c := range []*BinCase{big, seen} {
+		nt, classes, err := runBin(c)
+		st.Record(binHash(c), nt, classes, vlib.SampleOf(c))
+		if err != nil {
+			vlib.SaveFailure("C06", "binary-fixed", c, err)
+			t.Fatalf("C06 violated: %v", err)
+		}
+	}
+}
+
 func init() {
+	vlib.Replayers["C06/binary-fixed"] = func(raw json.RawMessage) error {
+		var c BinCase
+		if err := json.Unmarshal(raw, &c); err != nil {
+			return err
+		}
+		_, _, err := runBin(&c)
+		return err
+	}
 	vlib.Replayers["C06/binary"] = func(raw json.RawMessage) error {
 		var c BinCase
 		if err := json.Unmarshal(raw, &c); err != nil {
